@@ -334,8 +334,9 @@ def read_var_def(line: str, var_type: str | None = None, fun_only: bool = False)
     )
     if fun_def or fun_only:
         return fun_def
-    # Split the type and variable name
-    line_split = trailing_line.split("::")
+    # Split the type and variable name (at the first "::", an initialiser may
+    # contain others inside a character literal)
+    line_split = trailing_line.split("::", 1)
     if len(line_split) == 1:
         if len(keywords) > 0:
             var_words = None
